@@ -211,6 +211,6 @@ func TestC31(t *testing.T) {
 	maxK := 3
 	exploreOwners(t, run, maxK)
 	run.Cov["preemption_bound"] = bound
-	run.Assumptions = append(run.Assumptions, "scheduling points at every lock/channel/go operation of link/solicit; data-race freedom between them is checked by the separate free-running -race pass")
+	run.Assumptions = append(run.Assumptions, "scheduling points at every lock/channel/go operation of link/solicit; data-race freedom between them is what the separate free-running race pass (racepass.sh, race-pass.json) looks at")
 	run.Finish(t)
 }
